@@ -18,5 +18,10 @@ DoUpdate(x) == /\ Len(hist) < Depth
 Next == \E x \in 0..NSym : DoUpdate(x)
 Spec == Init /\ [][Next]_vars
 Inv == TreeOK(tree) /\ tree.wt[Root] <= MaxCount /\ tree.wt[Root] = NSym + Cardinality({i \in 1..Len(hist) : hist[i].ok})
-Export == (Len(hist) = Depth) => PrintT("S|" \o ToJson([id |-> <<NSym, Depth>>, steps |-> << [op |-> "huff_seq", n |-> NSym, init |-> Obs(InitTree), seq |-> hist] >>]))
+\* every symbol outside 0..NSym-1 is refused with the tree unchanged: NSym stands for the class in the walks; at the end of each exported history the
+\* harness also offers these representatives (16-bit parameter: the values next to 2^16, next to 2^15, and those whose sum with the node count 2 NSym - 1 wraps)
+OutOfRange == << NSym + 1, 255, 256, 32767, 32768, 65535 - NSym, 65536 - (2 * NSym - 1), 65537 - (2 * NSym - 1), 65534, 65535 >>
+OutOfRangeIsRefused == \A i \in 1..Len(OutOfRange) : OutOfRange[i] >= NSym => ~CanUpdate(tree, OutOfRange[i])
+Export == (Len(hist) = Depth) => PrintT("S|" \o ToJson([id |-> <<NSym, Depth>>, steps |-> << [op |-> "huff_seq", n |-> NSym, init |-> Obs(InitTree), seq |-> hist,
+                                                      refused |-> SelectSeq(OutOfRange, LAMBDA x : x >= NSym), final |-> Obs(tree)] >>]))
 ====
